@@ -205,6 +205,68 @@ func checkC04Alphabet(c *Ctx) {
 
 // ---------------------------------------------------------------- monitor 2: numeric form
 
+// checkC04Positions: "an identifier that starts like a number but is not one is rejected, never
+// treated as a name" - wherever a name can stand: variable, property (declared and read), method,
+// type, parameter, 得到 name, loop variable, method of a type, call. The same programs with a
+// proper name in that place are the controls (they must run).
+func checkC04Positions(c *Ctx) {
+	templates := map[string]string{
+		"variable":        "令§ = 1\n输出 §\n",
+		"assign":          "令甲 = 1\n§ = 2\n输出 1\n",
+		"property-decl":   "定义狗：\n\t其§ = 7\n\n令甲 =（新建狗）\n输出 1\n",
+		"property-read":   "定义狗：\n\t其§ = 7\n\n令甲 =（新建狗）\n输出甲之§\n",
+		"property-write":  "定义狗：\n\t其§ = 7\n\n令甲 =（新建狗）\n甲之§ = 8\n输出 甲之§\n",
+		"property-this":   "定义狗：\n\t其§ = 7\n\t如何取？\n\t\t输出 其§\n\n令甲 =（新建狗）\n输出 以甲（取）\n",
+		"method":          "如何§？\n\t输出 1\n\n输出（§）\n",
+		"method-uncalled": "如何§？\n\t输出 1\n\n输出 1\n",
+		"type":            "定义§：\n\t其名 = 1\n\n输出（新建§）之名\n",
+		"parameter":       "如何f？\n\t输入§\n\t输出 1\n\n输出（f：2）\n",
+		"yield":           "如何f？\n\t输出 1\n\n（f）得到§\n输出 1\n",
+		"loop-variable":   "以§遍历【1，2】：\n\t（显示：1）\n输出 1\n",
+		"type-method":     "定义狗：\n\t其名 = 7\n\t如何§？\n\t\t输出 1\n\n令甲 =（新建狗）\n输出 以甲（§）\n",
+		"builtin-method":  "令甲 = 【1，2】\n输出 以甲（§）\n",
+		"input":           "输入§\n输出 1\n",
+		"thrown-type":     "抛出§：“x”！\n",
+		"handler-type":    "输出 1 / 0\n\n拦截§：\n\t输出 2\n",
+	}
+	bad := []string{"5x", "1e+", "3x7", "12abc", "0x10", "1.2.3", "1e5e", "2*^", "7%4", "9甲"}
+	good := []string{"甲", "x5", "名称"}
+	type cs struct {
+		pos, id, src string
+		bad          bool
+	}
+	var cases []cs
+	for pos, t := range templates {
+		for _, id := range bad {
+			cases = append(cases, cs{pos, id, strings.ReplaceAll(t, "§", id), true})
+		}
+		for _, id := range good {
+			cases = append(cases, cs{pos, id, strings.ReplaceAll(t, "§", id), false})
+		}
+	}
+	sort.Slice(cases, func(i, j int) bool { return cases[i].pos+cases[i].id < cases[j].pos+cases[j].id })
+	reqs := make([]Req, len(cases))
+	for i, k := range cases {
+		reqs[i] = execReq(k.src)
+		reqs[i].EvalBudget = 5000
+		if k.pos == "input" {
+			reqs[i].Inputs = map[string]Val{k.id: Num(1)}
+		}
+	}
+	c.runBatches(reqs, 60, func(i int, req *Req, resp *Resp) {
+		c.Eval()
+		k := cases[i]
+		c.Count("name_positions_checked", 1)
+		c.Nontrivial(fmt.Sprintf("position|%s|%s|%s", k.pos, k.id, resp.Kind))
+		if k.bad && resp.Kind != "error" {
+			c.Violation("positions:"+k.pos+":"+k.id, fmt.Sprintf("%q starts like a number but is not one, yet it was accepted as a name (%s): outcome %s %s\nprogram:\n%s", k.id, k.pos, resp.Kind, resp.Outcome(), k.src), map[string]interface{}{"req": req})
+		}
+		if !k.bad && resp.Kind != "value" && k.pos != "thrown-type" && k.pos != "handler-type" && k.pos != "builtin-method" && k.pos != "assign" {
+			c.Violation("positions-control:"+k.pos+":"+k.id, fmt.Sprintf("control: the proper name %q in position %s must work, outcome %s %v\nprogram:\n%s", k.id, k.pos, resp.Kind, resp.Err, k.src), map[string]interface{}{"req": req})
+		}
+	})
+}
+
 func checkC04Numeric(c *Ctx) {
 	alpha := []byte("017+-.eE*^x")
 	maxLen := c.Pick(5, 7)
@@ -706,6 +768,7 @@ func checkC04(c *Ctx) {
 	c.assumptions = []string{"keyword spellings and token type codes are transcribed from the manual / public constants", "'.12'-style strings are not asserted", "alphabet monitor is exhaustive over all code points; lexer agreement is sampled in quick and BMP-exhaustive in thorough"}
 	checkC04Alphabet(c)
 	checkC04Numeric(c)
+	checkC04Positions(c)
 	checkC04Segmentation(c)
 	_ = sort.Strings
 }
